@@ -59,6 +59,8 @@ func genLemmas(w *World, filter func(l *Lemma) bool) ([]*Obligation, error) {
 		var foldApps []foldApp
 		ev.onFold = func(name string, arr, off, n T) { foldApps = append(foldApps, foldApp{name, arr, off, n}) }
 		ev.onRS = func(v, e T) { rsTerms = append(rsTerms, [2]T{v, e}) }
+		var beTerms [][3]T
+		ev.onBE = func(arr, off, n T) { beTerms = append(beTerms, [3]T{arr, off, n}) }
 		var decs [][2]T
 		ev.onDec = func(lo, hi T) { decs = append(decs, [2]T{lo, hi}) }
 		env := &Env{vars: map[string]Val{}}
@@ -135,6 +137,7 @@ func genLemmas(w *World, filter func(l *Lemma) bool) ([]*Obligation, error) {
 				fd = l.Depth
 			}
 			o.Extra = append(o.Extra, w.foldInstances(foldApps, fd)...)
+			o.Extra = append(o.Extra, beInstances(beTerms)...)
 			if indObl != nil {
 				indObl.Extra = o.Extra
 				out = append(out, indObl)
